@@ -190,6 +190,17 @@ def count_obligations(files):
 def stage_proofs(prop, st, thorough=False):
     """build Properties/<prop>.vo (full .vo), re-run coqc on it capturing Check/Print Assumptions"""
     ensure_makefile()
+    if not os.path.exists(os.path.join(COQ, "Properties/%s.v" % prop)):
+        # no theorem file yet for this property: only the model build is needed (the check
+        # then reports at level "exploration")
+        code, out = run(["make", "-j%d" % NPROC, "Extract.vo"], cwd=COQ, timeout=3000)
+        st["make_ok"] = code == 0
+        st["no_theorems"] = True
+        st["obligations"] = 0
+        st["discharged"] = 0
+        if code != 0:
+            st["proof_error"] = out[-800:]
+        return code == 0
     target = "Properties/%s.vo" % prop
     t0 = time.time()
     code, out = run(["make", "-j%d" % NPROC, target, "Extract.vo"], cwd=COQ, timeout=3000)
@@ -794,7 +805,7 @@ def write_evidence(prop, tier, seed, st, res, t_start, violations, known, n_oras
         "property_id": prop,
         "tier": tier,
         "seed": seed,
-        "level": cfg.get("level", "proof"),
+        "level": "exploration" if st.get("no_theorems") else cfg.get("level", "proof"),
         "coverage": cov,
         "assumptions": cfg.get("assumptions", []) + [
             "usize additions do not overflow; allocation succeeds (DESIGN.md section 10)",
